@@ -2173,6 +2173,19 @@ where
             ));
             return outcome;
         }
+        Exit::StepCap if prop == "C19" || prop == "C01" => {
+            // the scripts of these scenarios need a few thousand executor steps; six hundred thousand in some tens of seconds of
+            // virtual time is an endpoint that wakes up over and over without anything to do ("rather than spinning", "never stalls")
+            outcome.violation = Some(Violation::new(
+                &format!("{}/busy-waiting", prop),
+                "step-cap",
+                format!(
+                    "the run used up its budget of {} executor steps in {} ms of virtual time",
+                    report.steps, report.sim_ms
+                ),
+            ));
+            return outcome;
+        }
         other => {
             outcome.harness_error = Some(format!("run ended with {:?}", other));
             return outcome;
